@@ -12,7 +12,9 @@ package clock
 //@   lockeffect c.lock -1
 //@   at call close#1 assert deadline-only-after-the-unsuspended-budget:
 //@             finalTotalUnsuspended - currentTotalUnsuspended < c.timeoutThreshold
-//@   at call close#1 assert budget-is-the-requested-timeout: finalTotalUnsuspended == initialTotalUnsuspended + old(d)
+//@   at call close#1 assert budget-is-the-requested-timeout:
+//@             finalTotalUnsuspended == initialTotalUnsuspended + old(d) ||
+//@             initialTotalUnsuspended + old(d) > MaxInt64 || initialTotalUnsuspended + old(d) < MinInt64
 //@   at call close#1 assert reported-duration-is-unsuspended-time: ctx.unsuspendedDuration == currentTotalUnsuspended - initialTotalUnsuspended
 //@   at call close#1 assert lock-released: held(c.lock) == -1
 //@   at call close#2 assert lock-released: held(c.lock) == -1
@@ -36,29 +38,26 @@ package clock
 
 //@ func (*SuspendableClock).getTotalUnsuspendedWithTime
 //@   props C11
-//@   requires sane(c) && 0 <= now && now < 1000000000000000000
-//@   ensures equals-U: r0 == U(c, now)
+//@   ensures equals-U: sane(c) && 0 <= now && now < 1000000000000000000 ==> r0 == U(c, now)
 //@   ensures pure: unchanged()
 
 //@ func (*SuspendableClock).getTotalUnsuspendedNow
 //@   props C11
-//@   requires sane(c)
-//@   ensures equals-U-now: r0 == U(c, clocknow(c.base))
+//@   ensures equals-U-now: old(sane(c)) && old(clocknow(c.base) >= c.unsuspensionStart) ==> r0 == U(c, clocknow(c.base))
 
 // Suspending and resuming never lose or invent unsuspended time: the
 // accounting function is continuous at the moment of the call.
 //@ func (*SuspendableClock).Suspend
 //@   props C11
-//@   requires sane(c) && clocknow(c.base) >= c.unsuspensionStart
-//@   ensures one-more-suspension: c.suspensionCount == old(c.suspensionCount) + 1
-//@   ensures U-continuous: keepsU(c, clocknow(c.base))
+//@   ensures one-more-suspension: old(sane(c)) ==> c.suspensionCount == old(c.suspensionCount) + 1
+//@   ensures U-continuous: old(sane(c)) && old(clocknow(c.base) >= c.unsuspensionStart) ==> keepsU(c, clocknow(c.base))
 //@   ensures balanced-lock: held(c.lock) == 0
 
 //@ func (*SuspendableClock).Resume
 //@   props C11
-//@   requires sane(c) && c.suspensionCount >= 1
-//@   ensures one-less-suspension: c.suspensionCount == old(c.suspensionCount) - 1
-//@   ensures U-continuous: keepsU(c, clocknow(c.base))
+//@   panics_if c.suspensionCount == 0
+//@   ensures one-less-suspension: old(sane(c)) ==> c.suspensionCount == old(c.suspensionCount) - 1
+//@   ensures U-continuous: old(sane(c)) && old(clocknow(c.base) >= c.unsuspensionStart) ==> keepsU(c, clocknow(c.base))
 //@   ensures total-untouched: c.totalUnsuspended == old(c.totalUnsuspended)
 
 // The wall-clock bound: the base context and the base timer are created with
